@@ -358,10 +358,54 @@ func init() {
 	}
 }
 
-// closeIters closes the query iterators a "hold" query left open.
+// heldIter: an iterator a "hold" query left open after its first row, with what the collection
+// held when the query was made.
+type heldIter struct {
+	it    sgbucket.QueryResultIterator
+	c     int
+	kind  string
+	first string            // id of the row already fetched ("" = none)
+	want  map[string]uint64 // id -> CAS of every row the query had to return when it was made
+}
+
+// closeIters drains and closes the iterators "hold" queries left open. Whatever was written in the
+// meantime, a document that matched when the query was made and has not been touched since is
+// returned exactly once, and no document twice.
 func (r *Run) closeIters() {
-	for _, it := range r.heldIters {
-		_ = it.Close()
+	for _, h := range r.heldIters {
+		seen := map[string]int{}
+		if h.first != "" {
+			seen[h.first]++
+		}
+		bad := false
+		for i := 0; i < 100000; i++ {
+			b := h.it.NextBytes()
+			if b == nil {
+				break
+			}
+			row, err := decodeQueryRow(b)
+			if err != nil {
+				bad = true
+				break
+			}
+			seen[row.ID]++
+		}
+		_ = h.it.Close()
+		if bad || r.W.Model.Colls[h.c].Dropped {
+			continue
+		}
+		for id, n := range seen {
+			if n > 1 {
+				r.dev("query.held", []string{"C19"}, "a %s query over %s whose iterator was left open across later writes returned %q %d times", h.kind, r.W.Cfg.Colls[h.c], id, n)
+				break
+			}
+		}
+		for id, cas := range h.want {
+			if st := r.W.Model.Get(h.c, id); st.HasBody() && st.Cas == cas && seen[id] != 1 {
+				r.dev("query.held", []string{"C19"}, "a %s query over %s whose iterator was left open across later writes returned %q %d times, although it matched when the query was made and has not been touched since", h.kind, r.W.Cfg.Colls[h.c], id, seen[id])
+				break
+			}
+		}
 	}
 	r.heldIters = nil
 }
@@ -387,9 +431,11 @@ func (r *Run) QueryStep(op Op) {
 		r.dev("query.err", c19, "query %s failed: %v", q.Kind, err)
 		return
 	}
+	var holding *heldIter
 	if held != nil {
 		// stays open while the history goes on: later queries must still see the current documents
-		r.heldIters = append(r.heldIters, held)
+		r.heldIters = append(r.heldIters, heldIter{it: held, c: op.C, kind: q.Kind, want: map[string]uint64{}})
+		holding = &r.heldIters[len(r.heldIters)-1]
 	}
 	want := expectedQueryRows(r, op.C, q)
 	// sentinel / checkpoint documents written by the harness itself are not part of the model
@@ -420,6 +466,14 @@ func (r *Run) QueryStep(op Op) {
 		got = append(got, row)
 	}
 	tr.Prior = fmt.Sprintf("rows=%d", len(want))
+	if holding != nil {
+		for _, wr := range want {
+			holding.want[wr.ID] = r.W.Model.Get(op.C, wr.ID).Cas
+		}
+		if len(got) == 1 {
+			holding.first = got[0].ID
+		}
+	}
 	switch q.Iter {
 	case "one", "early", "hold":
 		// at most one row, which must be one of the expected rows (the first if ordered)
